@@ -3,7 +3,7 @@ import datetime
 import math
 from . import error
 from ..helper.number import to_number, whole_text
-from .utils import OPERATOR_DICT, serialize_date, parse_date, date_1900, as_lists, plain_number, MAX_WHOLE_BITS
+from .utils import OPERATOR_DICT, serialize_date, parse_date, date_1900, as_lists, plain_number, MAX_WHOLE_BITS, mixed_beyond_double
 from .._compat import integer_types, number_types, string_types
 
 
@@ -409,13 +409,6 @@ def lone_item(value):
         visited.add(id(value))
         value = value[0]
     return value
-
-
-def mixed_beyond_double(lval, rval):
-    """one operand a float, the other a whole number that no double holds exactly, both finite"""
-    whole, other = (rval, lval) if isinstance(lval, float) else (lval, rval)
-    return (isinstance(whole, integer_types) and not isinstance(whole, bool) and abs(whole) > 2 ** 53
-            and other == other and not math.isinf(other))
 
 
 def exact_fraction(value):
